@@ -236,8 +236,11 @@ def run_property(pid, tier="quick", seed=0, only=None, jobs=None, no_replay=Fals
     # ---------------- refuted obligations: replay, known findings
     known, fixed = load_known(pid)
     os.makedirs(os.path.join(HERE, "out", "replay"), exist_ok=True)
-    n_obl = len(byname)
+    bounded_fns = {k: f.bounded for k, f in C.fns.items() if f.bounded}
+    n_obl = len([n for n, a in byname.items() if a["fn"] not in bounded_fns])
     n_dis = 0
+    n_b_obl = len(byname) - n_obl
+    n_b_ok = 0
     und_names = []
     for name, a in sorted(byname.items()):
         if a["refuted"]:
@@ -284,6 +287,8 @@ def run_property(pid, tier="quick", seed=0, only=None, jobs=None, no_replay=Fals
         elif a["undecided"]:
             und_names.append(name)
             status["undecided"].append("%s: %d VC(s) undecided by all back ends" % (name, a["undecided"]))
+        elif a["fn"] in bounded_fns:
+            n_b_ok += 1
         else:
             n_dis += 1
     # ---------------- output
@@ -318,6 +323,8 @@ def run_property(pid, tier="quick", seed=0, only=None, jobs=None, no_replay=Fals
             "samples": samples,
             "explanation": getattr(C, "explanation", C.title),
             "bounded": getattr(C, "bounded", []),
+            "bounded_checks": {"functions": bounded_fns, "obligations": n_b_obl, "held_within_bound": n_b_ok,
+                               "note": "not counted in obligations/discharged"},
         },
         "assumptions": list(C.assumptions),
         "wall_s": round(wall, 2),
